@@ -21,7 +21,8 @@ ASSUMPTIONS = ['the explicit form is the rule expanded onto every target by the 
 ALPHA = 'KSMG'
 MODLISTS = [[['10', 1]], [['Oxidation', 1]], [['Formula:C2H2O', 1], ['10', 1]]]
 TARGET_SETS = [['K'], ['S'], ['M'], ['N-Term'], ['C-Term'], ['K', 'S'], ['K', 'N-Term'], ['M', 'C-Term'],
-               ['K', 'S', 'M'], ['N-Term', 'C-Term'], ['K', 'N-Term', 'C-Term'], ['S', 'M'], ['G']]
+               ['K', 'S', 'M'], ['N-Term', 'C-Term'], ['K', 'N-Term', 'C-Term'], ['S', 'M'], ['G'],
+               ['N-Term', 'K'], ['C-Term', 'K', 'S']]       # a terminus named BEFORE residues
 IONS = ['p', 'b', 'y', 'c', 'z']
 LABELS = ['13C', '15N', '18O', '17O', '34S', 'D', 'T', '2H']
 LABEL_EL = {'13C': 'C', '15N': 'N', '18O': 'O', '17O': 'O', '34S': 'S', 'D': 'H', 'T': 'H', '2H': 'H'}
@@ -280,6 +281,22 @@ def check(case, ctx):
             if ka != kb:
                 ctx.fail('labelled-fragments-rule-vs-explicit', kb if isinstance(kb, str) else [x for x in kb if x not in ka][:4],
                          ka if isinstance(ka, str) else [x for x in ka if x not in kb][:4], rule_form=s1, explicit_form=s_exp)
+        # one parsed object of the labelled peptide asked repeatedly (with other ion types and charges in between): the
+        # answers are those for the text and the object still writes the labelled peptide
+        st0, obj = lib.call(p.parse, s1)
+        if st0 == 'ok':
+            want = lib.call(p.mass, s1)
+            seq_of_calls = [lambda: p.mass(obj), lambda: p.mass(obj, charge=2, ion_type='b'), lambda: p.comp(obj),
+                            lambda: p.mass(obj, use_isotope_on_mods=True), lambda: p.mass(obj)]
+            got = [lib.call(c) for c in seq_of_calls]
+            ctx.evals += 6
+            if want[0] == 'ok' and (got[0][0] != 'ok' or got[-1][0] != 'ok' or not lib.close(got[0][1], want[1], 1e-9) or
+                                    not lib.close(got[-1][1], want[1], 1e-9)):
+                ctx.fail('labelled-reused-object', _v(want), [_v(got[0]), _v(got[-1])], labelled=s1,
+                         note='mass, mass(charge=2, ion b), comp, mass(use_isotope_on_mods), mass on one parsed object')
+            st9, s9 = lib.call(obj.serialize)
+            if st9 != 'ok' or s9 != p.parse(s1).serialize():
+                ctx.fail('labelled-reused-object-changed', p.parse(s1).serialize(), s9, labelled=s1)
         ctx.outcome = [s1]
 
 
